@@ -134,6 +134,19 @@ def check(repo: Repo, rep: Report) -> None:
                     positive = not (isinstance(n_.value, ast.Constant) and not n_.value.value)
                     if positive:
                         bumps[p_].append(s_)
+    # the spin counter is the local start() increments once per item; every reset of it applies to both clock kinds
+    from ..rules import names_augmented as _na
+    for cn in _na(st, ast.Add):
+        if cn.startswith("self"):
+            continue
+        for s_ in sites(st):
+            n_ = s_.node
+            if isinstance(n_, ast.Assign) and u(n_.targets[0]) == cn and isinstance(n_.value, ast.Constant) and n_.value.value == 0 and s_.ctx.loops:
+                kinds_ = [p_ for e, p_ in s_.ctx.guards if isinstance(e, ast.Call) and call_name(e) == "isinstance" and len(e.args) == 2 and u(e.args[0]) == "self._clock"]
+                rep.ob("E-clock-kind", st, f"start(): `{short(n_)}` after a clock move is not specific to one clock kind", not kinds_,
+                       f"the spin counter is reset only for {'datetime' if kinds_ and kinds_[0] else 'numeric'} clocks: on the other kind it keeps growing across "
+                       f"ordinary time advances, so after 100 items every zero-delay action is taken for a busy spin and runs at a clock bumped "
+                       f"past its due time")
     for kind_, nm in ((True, "datetime"), (False, "numeric")):
         rep.ob("E-clock-kind", st, f"start(): the spin guard advances a {nm} clock", bool(bumps[kind_]),
                f"the spin guard of start() does not move a {nm} clock forward: an action that keeps rescheduling itself at the same instant "
